@@ -6,6 +6,8 @@ package main
 import (
 	"fmt"
 	"math/big"
+
+	"github.com/ethereum/go-ethereum/crypto"
 )
 
 const (
@@ -87,6 +89,8 @@ type genCtx struct {
 	depth     int
 	noIntro   bool // C15: no code introspection, no CREATE2, no raw bytes
 	noMcopy   bool
+	self      string // address of the contract whose program is being generated ("" unknown)
+	nCreates  int
 }
 
 type opAvail struct {
@@ -428,7 +432,18 @@ func (g *genCtx) genMacro(r *RNG, depth int) []Macro {
 			// transliterated bytes observable)
 			return []Macro{{K: "op", Op: "NOT", A: []string{genVal(r)}, Dst: genDst(r)}}
 		}
-		return []Macro{g.genCreate(r, curProg, depth)}
+		cm := g.genCreate(r, curProg, depth)
+		ms := []Macro{cm}
+		if g.self != "" && depth == 0 {
+			if cm.Op == "CREATE" && r.P(1, 2) {
+				// touch the address the create was aimed at (warm even if the create failed)
+				would := crypto.CreateAddress(addr(g.self), uint64(1+g.nCreates))
+				probe := g.pickOp(r, []opAvail{{"BALANCE", ""}, {"EXTCODESIZE", ""}, {"EXTCODEHASH", "Constantinople"}})
+				ms = append(ms, Macro{K: "op", Op: probe, A: []string{hx(would[:])}, Dst: 1 + r.Intn(0x1c0)})
+			}
+			g.nCreates++
+		}
+		return ms
 	case w < 88:
 		var body []Macro
 		n := 1 + r.Intn(3)
@@ -564,7 +579,9 @@ func genStdScenario(seed uint64, prop string, maxFork string) *Scenario {
 	sc.Accounts = append(sc.Accounts, Account{Addr: eoaA, Balance: "0xffffffffffffffffffff"}, Account{Addr: eoaB, Balance: "0x3e8"},
 		Account{Addr: codeless, Balance: "0x1"}, Account{Addr: emptyAcct})
 	for i := 0; i < nc; i++ {
+		g.self, g.nCreates = contractAddr(i), 0
 		a := Account{Addr: contractAddr(i), Balance: hxu(uint64(r.Intn(5000))), Nonce: 1, Code: g.genProgram(r, 2+r.Intn(14))}
+		g.self = ""
 		if r.Bool() {
 			a.Storage = map[string]string{}
 			for k := 0; k < r.Intn(4); k++ {
